@@ -1519,6 +1519,38 @@ def explore(entry, max_paths=4000, timeout_ms=1500, deadline_s=None):
 
 
 # ------------------------------------------------------------------------------------------ discharge
+SECOND_SOLVER = False                      # thorough tier: every `unsat` is re-checked by cvc5 from the exported SMT-LIB
+SECOND_STATS = {'checked': 0, 'agree_unsat': 0, 'unknown': 0, 'sat_disagreements': [], 'errors': 0}
+
+
+def _second_opinion(s):
+    import os
+    import subprocess
+    import tempfile
+    SECOND_STATS['checked'] += 1
+    try:
+        txt = '(set-logic ALL)\n' + s.to_smt2()
+        with tempfile.NamedTemporaryFile('w', suffix='.smt2', delete=False, dir=os.environ.get('VERIF_SCRATCH', None)) as f:
+            f.write(txt)
+            path = f.name
+        try:
+            r = subprocess.run(['/usr/bin/cvc5', '--tlimit=6000', '--full-saturate-quant', path], capture_output=True, text=True, timeout=30)
+            out = (r.stdout or '').strip().splitlines()
+            ans = out[0].strip() if out else 'error'
+        finally:
+            os.unlink(path)
+        if ans == 'unsat':
+            SECOND_STATS['agree_unsat'] += 1
+        elif ans == 'sat':
+            SECOND_STATS['sat_disagreements'].append(txt[:400])
+        elif ans in ('unknown', 'timeout') or 'interrupted' in ans or not ans:
+            SECOND_STATS['unknown'] += 1
+        else:
+            SECOND_STATS['errors'] += 1
+    except Exception:
+        SECOND_STATS['errors'] += 1
+
+
 def discharge(run, formula, npc=None, nax=None, timeout_ms=10000, extra=(), rlimit=None):
     """Check pc[:npc] & axioms[:nax] |= formula.  Returns (verdict, model_or_reason, seconds).
     verdict: 'unsat' (proved) | 'sat' | 'unknown'.
@@ -1546,6 +1578,8 @@ def discharge(run, formula, npc=None, nax=None, timeout_ms=10000, extra=(), rlim
     r = s.check()
     dt = time.time() - t0
     if r == z3.unsat:
+        if SECOND_SOLVER:
+            _second_opinion(s)
         return 'unsat', None, dt
     if r == z3.sat:
         return 'sat', s.model(), dt
